@@ -141,6 +141,8 @@ def run():
     meta = []
     for i, ((doc, opts), res) in enumerate(zip(docs, first)):
         label = "generated document %d" % i
+        if clirun.watchdog(res, r, label):
+            continue
         if res.rc != 0:
             r.witness("CLI run with -log failed (rc=%s)" % res.rc, {"doc": label, "opts": opts, "stderr": res.stderr_tail[-500:]})
             continue
@@ -164,6 +166,8 @@ def run():
     by_kind = {}
     for (what, label, doc, opts, opt_text, kind), res in zip(meta, results):
         out_text = res.text_file("_optimized_from_log.json_solc")
+        if clirun.watchdog(res, r, "replay of " + label):
+            continue
         if what == "roundtrip":
             counts["round_trips"] += 1
             if res.rc != 0 or out_text is None:
